@@ -16,6 +16,13 @@ COMMON_NOTE = (
 
 # id -> (level category, level text, technique, design ref, extra note)
 CLAIMED = {
+    "C04": (
+        "proof",
+        "NLO closed forms: the real NLO quark and gluon kernels of F2, FL, F3, g1 (through the real NC/CC classes, nf 3..6) are identical, as elements of Q(z, ln z, ln(1-z)) with z3-justified log expansion, to the published closed forms (regular part, plus distributions, delta coefficient) for all z in (0,1). Sum rules: the first moment int_0^1 reg + loc(0+) of the real non-singlet kernels (Adler: F2 nu-nubar at orders 1-3; GLS/Bjorken: F3 and g1 at the available orders, nf 3..6) is computed by exact term-wise reduction of the kernel's symbolic normal form to a table of definite integrals and equals the analytic value (exactly at NLO, within 1e-4 of the cancellation scale for the fitted parametrisations).",
+        "contract-based deductive verification: symbolic normal form of the real kernels + exact reduction to a definite-integral table (moment lemmas) + ratfun identities",
+        "DESIGN 4 C04",
+        "literature values typed into spec/nlo.py, spec/sumrules.py; the integral table is trusted numerics (mpmath, 40 digits, spot-checked); only first moments are claimed.",
+    ),
     "C14": (
         "proof",
         "Invariant-style contracts on every memo table: the cache key built by sf.get_esf (recorded with a probing dict, symbolic kinematics) contains x and Q2 by name at fixed positions whatever the order/extra entries of the kinematics dict, plus the TMC flag, and the object returned is the one a fresh request builds; ESF.get_result computes once and returns a deep copy; ScaleVariations.operators[(label,nf)] and heavy.n3lo.interpolators[file name] are functions of keys that determine all inputs; Runner.get_result places results by original index on every Q2 ordering of 0..3 elements (symbolic Q2, ties included); AST write-set: no other module-level state is written. History independence then follows by induction over the public operations (DESIGN C14).",
